@@ -37,7 +37,7 @@ ExprName(c) == CASE c = "neg" -> "unary" [] c \in {"path", "word"} -> "path" [] 
 \* the literal a Vec<LitX> keeps
 Wanted(t) == CASE t = "VecLitInt" -> {"int7", "int300"} [] t = "VecLitStr" -> {"str", "strnum"} [] t = "VecLitBool" -> {"bool"}
 TextOf(c) == CASE c = "int7" -> "7" [] c = "int300" -> "300" [] c = "str" -> "s" [] c = "strnum" -> "9" [] c = "bool" -> "true"
-               [] c = "path" -> "a::b" [] c = "word" -> "w" [] c = "nv" -> "1" [] OTHER -> "?"
+               [] c = "path" -> "a::b" [] c = "word" -> "w" [] c = "nv" -> "1" [] c = "neg" -> "-1" [] OTHER -> "?"
 
 At(w, i) == [w |-> w, i |-> i]                  \* "item": the whole item, "value": the value after `=`, "elem": i-th element, "elemval": the value inside the i-th element
 Good(v)       == [ok |-> TRUE, v |-> v, k |-> "", n |-> "", at |-> At("", 0)]
@@ -58,7 +58,10 @@ LitFromLit(t, c, at) == IF c \in Wanted(t) THEN Good(TextOf(c)) ELSE Bad("type",
 \* element of `[..]` (an expression); every span inside a quoted array is the string literal's
 ElemExpr(t, c, at) ==
   IF IsNum(t) THEN (IF c \in LitClasses THEN NumFromLit(t, c, at) ELSE Bad("custom", NumMsg, at))
-  ELSE (IF c \in LitClasses THEN LitFromLit(t, c, at) ELSE Bad("type", ExprName(c), at))
+  ELSE (IF c \in LitClasses THEN LitFromLit(t, c, at)
+        \* a negated number is a literal to the user (the default from_expr re-reads `-(1)` as the literal `-1`)
+        ELSE IF c = "neg" THEN (IF t = "VecLitInt" THEN Good("-1") ELSE Bad("type", "int", at))
+        ELSE Bad("type", ExprName(c), at))
 \* element of `f(..)` (a nested meta item) for Vec<LitX>: FromMeta::from_nested_meta of LitX
 ElemNested(t, c, i) ==
   CASE c \in LitClasses -> LitFromLit(t, c, At("elem", i))
@@ -107,7 +110,7 @@ Spec == Init /\ [][Next]_vars
 Accepts(t, ca, c) ==
   CASE t = "PathList" -> ca = "list" /\ c \in {"path", "word"}
     [] IsNum(t) -> ca \in {"array", "qarray"} /\ c \in (IF t = "VecU8" THEN {"int7", "strnum"} ELSE {"int7", "int300", "strnum"})
-    [] IsLit(t) -> c \in Wanted(t) \/ (ca = "list" /\ c = "nv" /\ t = "VecLitInt")
+    [] IsLit(t) -> c \in Wanted(t) \/ (ca = "list" /\ c = "nv" /\ t = "VecLitInt") \/ (c = "neg" /\ t = "VecLitInt" /\ ca \in {"array", "qarray"})
 CarrierOk(t, ca) == CASE t = "PathList" -> ca = "list" [] IsNum(t) -> ca \in {"array", "qarray"} [] IsLit(t) -> ca \in SeqCarriers
 BadIdx(t, ca, es) == {i \in 1..Len(es) : ~Accepts(t, ca, es[i])}
 Min(S) == CHOOSE x \in S : \A y \in S : x <= y
